@@ -35,7 +35,7 @@ PROPS = {
                           "transform / mul_array / save-load laws as invariants of the model) + replay of the TLC behaviours on the real classes "
                           "with comparison of the whole store after each operation + TLC validation of recorded operator results "
                           "(ResultAlgRec.tla) + bit-exact binary round trip of random float results (numeric, deciding)",
-                text="TLC applies Add, Sub, add(), MulScalar, DivScalar, mul_array, Void / 0 / None on either side, Transform(g) for g in "
+                text="TLC applies Add, Sub, add() (also with the void result / None), MulScalar, DivScalar, mul_array, Void / 0 / None on either side, Transform(g) for g in "
                      "{1, I, T, C4z, Mx, T*Mx}, SaveNpz/LoadNpz to stores of EnergyResult, KBandResult, ResultDict and VoidResult objects with "
                      "integer (also complex) data and checks, on the model, commutativity, associativity, a-a=0, distributivity, 1*a=a, Void "
                      "neutrality, additivity of Transform and Load(Save(r))=r on all stored objects. quick: every one-operation behaviour of "
@@ -46,8 +46,8 @@ PROPS = {
                      "evaluated by TLC on recorded results of one random triple per record (not on all tuples).",
                 note="documented meanings only (DESIGN.md 7.2): K-resolved `+` is the direct sum over k-points, `/` a copy (the element-wise "
                      "quotient is accepted too); named exclusions: Savable / TransformDefined (results with an undeclared (None) transform), "
-                     "EnergyShapeOK (no energy axis), ZeroNeutralDefined (0 / None next to a VoidResult), AddInPlaceDefined (add() with a "
-                     "VoidResult argument: reported as an observation); integer data, so all float operations of the implementation are exact "
+                     "EnergyShapeOK (no energy axis), ZeroNeutralDefined (0 / None next to a VoidResult); scalars are given as int, float, "
+                     "np.int64, np.float32, np.float64; integer data, so all float operations of the implementation are exact "
                      "(integrality of every projected value is verified to 1e-9); comments / titles are compared only for reloaded results",
                 ref="DESIGN.md 3.6"),
 }
@@ -56,7 +56,7 @@ INVS = ["NoRaise", "LawAddCommutes", "LawAddAssociative", "LawSubSelf", "LawSubA
         "LawVoidNeutral", "LawTransformLinear", "LawTransformOrder", "LawSaveLoad", "LawMulArray"]
 ALL_SYMS = ("Identity", "Inversion", "TimeReversal", "C4z", "Mx", "TRMx")
 OPS = ["Add", "Sub", "AddInPlace", "Mul", "Div", "AddVoidRight", "AddVoidLeft", "SubVoidRight", "SubVoidLeft", "Transform", "SaveNpz",
-       "LoadNpz", "SaveVoid", "AddZeroLeft", "AddNoneRight", "MulArray"]
+       "LoadNpz", "SaveVoid", "AddZeroLeft", "AddNoneRight", "MulArray", "AddInPlaceVoid"]
 NO_OPERAND = ("LoadNpz", "SaveVoid")
 COMPARE_ONLY = ("AddVoidRight", "AddVoidLeft", "SubVoidRight", "AddZeroLeft", "AddNoneRight")
 REC_CFG = ("SPECIFICATION RecSpec\nCONSTANTS\n  Wrong = {}\n  InitStores <- RecSeq\n  Scalars <- RecNone\n  Divisors <- RecNone\n"
@@ -68,7 +68,8 @@ CLAUSE_FIELDS = dict(add_equals_spec=("ab", "ba"), add_commutes=("ab", "ba"), ad
                      sub_self_zero=("a_minus_a",), mul_equals_spec=("sa", "sb", "as"), mul_distributes=("s_ab", "sa_sb"), mul_associative=("t_sa",),
                      mul_one=("one_a",), div_equals_spec=("sa_div_s",), div_meaning=("sa_div_s", "sa"), void_right_neutral=("a_void",),
                      void_left_neutral=("void_a",), void_sub_right=("a_sub_void",), void_sub_left=("void_sub_a",), add_in_place=("a_iadd_b",),
-                     zero_left_neutral=("zero_a",), none_right_neutral=("a_none",),
+                     zero_left_neutral=("zero_a",), none_right_neutral=("a_none",), add_in_place_void=("a_iadd_void", "a_iadd_none"),
+                     mul_numpy_scalars=("a_npi", "a_npf", "half_2a"),
                      transform_equals_spec=("Ta", "Tb"), transform_additive=("Tab", "Ta_Tb", "Ta", "Tb"), transform_homogeneous=("Tsa", "Ta"),
                      transform_keeps_meta=("Ta",), file_equals_spec=(), load_equals_spec=("loaded",), round_trip=("loaded",),
                      marr_equals_spec=("av",), marr_additive=("abv", "av", "bv"), marr_homogeneous=("sav",), marr_keeps_meta=("av",))
@@ -76,6 +77,7 @@ CLAUSE_METHOD = dict(add_equals_spec="__add__", add_commutes="__add__", add_asso
                      mul_equals_spec="__mul__", mul_distributes="__mul__", mul_associative="__mul__", mul_one="__mul__", div_equals_spec="__truediv__",
                      div_meaning="__truediv__", void_right_neutral="__add__", void_left_neutral="__add__", void_sub_right="__sub__",
                      void_sub_left="__sub__", add_in_place="add", zero_left_neutral="__radd__", none_right_neutral="__add__",
+                     add_in_place_void="add", mul_numpy_scalars="__mul__",
                      transform_equals_spec="transform", transform_additive="transform",
                      transform_homogeneous="transform", transform_keeps_meta="transform", file_equals_spec="save", load_equals_spec="from_npz",
                      round_trip="from_npz", marr_equals_spec="mul_array", marr_additive="mul_array", marr_homogeneous="mul_array",
@@ -221,7 +223,7 @@ class Replayer:
                                         expected_store=RA.jsonable([RA.expected(o) for o in st["store"]])))
             if op == "Div" and raised is None:
                 res = self.accept_kdiv(res, objs[ev["i"] - 1], ev["s"], st["store"][out - 1], cplx)
-            creates = op not in ("AddInPlace", "SaveNpz", "SaveVoid") and out != 0
+            creates = op not in ("AddInPlace", "AddInPlaceVoid", "SaveNpz", "SaveVoid") and out != 0
             if creates:
                 if out != len(objs) + 1:
                     raise MachineryError(f"hist entry {ev} does not append to a store of {len(objs)} objects")
@@ -229,7 +231,7 @@ class Replayer:
             elif out == 0 and raised is None:
                 # x + Void, Void + x, x - Void, 0 + x, x + None : has to equal x (it is not kept)
                 self.compare(op, kinds, "result", RA.expected(st["store"][ev["i"] - 1]), res, info)
-            if op == "AddInPlace" and raised is not None:
+            if op in ("AddInPlace", "AddInPlaceVoid") and raised is not None:
                 objs[ev["i"] - 1] = RA.make_obj(st["store"][ev["i"] - 1], cplx)
             if op in ("SaveNpz", "SaveVoid"):
                 if raised is not None:
@@ -463,7 +465,16 @@ def record_alg(rng):
                sa_div_s=guarded(lambda: (mk(sa) * s) / s),
                a_void=guarded(lambda: mk(sa) + V()), void_a=guarded(lambda: V() + mk(sa)),
                a_sub_void=guarded(lambda: mk(sa) - V()), void_sub_a=guarded(lambda: V() - mk(sa)),
-               zero_a=guarded(lambda: sum([mk(sa)])), a_none=guarded(lambda: mk(sa) + None))
+               zero_a=guarded(lambda: sum([mk(sa)])), a_none=guarded(lambda: mk(sa) + None),
+               a_npi=guarded(lambda: mk(sa) * np.int64(s)), a_npf=guarded(lambda: mk(sa) * np.float32(s)),
+               half_2a=guarded(lambda: (mk(sa) * 2) * np.float64(0.5)))
+    if sa["kind"] in "EK":
+        def iadd_neutral(other):
+            x = mk(sa)
+            x.add(other)
+            return x
+        rec["a_iadd_void"] = guarded(lambda: iadd_neutral(V()))
+        rec["a_iadd_none"] = guarded(lambda: iadd_neutral(None))
     if same_shape(sa, sb):
         rec["a_minus_b"] = guarded(lambda: mk(sa) - mk(sb))
         if sa["kind"] in "EK":
@@ -637,13 +648,8 @@ def observations(rep, scratch):
     tell("save_with_undeclared_transform", lambda: (EnergyResult([np.arange(2.)], np.zeros(2)).save(os.path.join(scratch, "undeclared")), "works")[1])
     tell("transform_without_energy_axes_rank0",
          lambda: (EnergyResult([], np.array(1.0), transformTR=t, transformInv=ps.Transform(factor=-1)).transform(ps.Inversion), "works")[1])
-    # add() with a VoidResult argument (key add_inplace_void): is "the void result is neutral" meant for the in-place add() too?
-    tell("add_inplace_void:EnergyResult.add", lambda: (mkE().add(VoidResult()), "works")[1])
-    tell("add_inplace_void:K__Result.add", lambda: (mkK().add(VoidResult()), "works")[1])
-    # scalars that are numpy numbers
-    for nm, sc in (("np.int64", np.int64(2)), ("np.float64", np.float64(2.0)), ("np.float32", np.float32(2.0))):
-        tell(f"scalar_{nm}:EnergyResult.__mul__", lambda: f"data {np.asarray((mkE() * sc).data).tolist()}")
-        tell(f"scalar_{nm}:KBandResult.__mul__", lambda: f"data {np.asarray((mkK() * sc).data).tolist()}")
+    # (add() with a VoidResult / None argument and scaling by numpy scalars are deciding cases since fd26d321)
+    tell("mul_array_comment", lambda: f"EnergyResult(comment='abc').mul_array(..).comment = {EnergyResult([np.arange(2.)], np.ones(2), transformTR=t, transformInv=t, comment='abc').mul_array(np.ones(2)).comment!r}")
     tell("void_plus_zero", lambda: f"VoidResult() + 0 -> {type(VoidResult() + 0).__name__}")
 
 
